@@ -6,7 +6,7 @@ import Mathlib.Algebra.CharP.Two
 # `GF256` is a field (Mathlib `Field`), of characteristic 2
 
 The operations of the `Field` instance are *definitionally* the core instances of
-`RSV/Model/GF256.lean` (`+ = - = xor`, `neg = id`, `* = gmul`, `a⁻¹ = gpow a 254`).
+`RSV/Model/GF256.lean` (`+ = - = xor`, `neg = id`, `* = gmul`, `a⁻¹ = ginvChain a` (= a^254)).
 
 Ring axioms for `gmul` are obtained through xor-linearity (`BF.pmul_xor_left/right`) and the
 basis-extension lemma `BF.ext_of_basis`, which reduce commutativity to 64 and associativity to
@@ -75,18 +75,6 @@ theorem gmul_one_right {a : Nat} (ha : a < 256) : gmul a 1 = a :=
   BF.ext_of_basis (fun a => gmul a 1) (fun a => a)
     (fun x y => gmul_xor_left x y 1) (fun _ _ => rfl) 8 gmul_one_right_basis a ha
 
-/-- `a^254` by a square-and-multiply chain (13 multiplications), used only to make the
-enumeration of inverses cheap for the kernel -/
-def ginvChain (a : Nat) : Nat :=
-  let s1 := gmul a a
-  let s2 := gmul s1 s1
-  let s3 := gmul s2 s2
-  let s4 := gmul s3 s3
-  let s5 := gmul s4 s4
-  let s6 := gmul s5 s5
-  let s7 := gmul s6 s6
-  gmul s1 (gmul s2 (gmul s3 (gmul s4 (gmul s5 (gmul s6 s7)))))
-
 set_option maxRecDepth 100000 in
 /-- every non-zero element times its chain-254th power is 1 (enumeration of 255 elements) -/
 theorem gmul_ginvChain : ∀ a, a < 256 → a ≠ 0 → gmul a (ginvChain a) = 1 := by
@@ -142,10 +130,6 @@ theorem pow_val (a : GF256) (n : ℕ) : (a ^ n).val = gpow a.val n := by
   | zero => rfl
   | succ n ih => rw [pow_succ, mul_val, ih]; rfl
 
-/-- `⁻¹` is the 254th power -/
-theorem inv_eq_pow (a : GF256) : a⁻¹ = a ^ 254 :=
-  GF256.ext (by rw [inv_val, pow_val])
-
 theorem gpow_254_eq_chain (a : GF256) : gpow a.val 254 = ginvChain a.val := by
   have h1 : a * a = a ^ 2 := (pow_two a).symm
   have h2 : a ^ 2 * a ^ 2 = a ^ 4 := by rw [← pow_add]
@@ -160,6 +144,10 @@ theorem gpow_254_eq_chain (a : GF256) : gpow a.val 254 = ginvChain a.val := by
   have key' := congrArg GF256.val key
   rw [← h7, ← h6, ← h5, ← h4, ← h3, ← h2, ← h1, pow_val] at key'
   exact key'
+
+/-- `⁻¹` is the 254th power -/
+theorem inv_eq_pow (a : GF256) : a⁻¹ = a ^ 254 :=
+  GF256.ext (by rw [inv_val, pow_val, gpow_254_eq_chain])
 
 theorem gmul_gpow_254 : ∀ a, a < 256 → a ≠ 0 → gmul a (gpow a 254) = 1 := by
   intro a ha h0
@@ -177,7 +165,7 @@ instance instField : Field GF256 where
   mul_inv_cancel a ha := by
     apply GF256.ext
     have h : a.val ≠ 0 := fun h => ha (GF256.ext h)
-    simp [gmul_gpow_254 a.val a.isLt h]
+    simp [gmul_ginvChain a.val a.isLt h]
   inv_zero := by decide
   nnqsmul := _
   nnqsmul_def := fun _ _ => rfl
@@ -191,12 +179,12 @@ example (a b : GF256) :
     (HSub.hSub (self := @instHSub _ instField.toSub) a b).val = a.val ^^^ b.val := rfl
 example (a b : GF256) :
     (HMul.hMul (self := @instHMul _ instField.toMul) a b).val = gmul a.val b.val := rfl
-example (a : GF256) : (@Inv.inv _ instField.toInv a).val = gpow a.val 254 := rfl
+example (a : GF256) : (@Inv.inv _ instField.toInv a).val = ginvChain a.val := rfl
 example (a : GF256) : (@Neg.neg _ instField.toNeg a) = a := rfl
 example : (@Zero.zero _ instField.toZero : GF256).val = 0 := rfl
 example : (@One.one _ instField.toOne : GF256).val = 1 := rfl
 example (a b : GF256) : (HDiv.hDiv (self := @instHDiv _ instField.toDiv) a b).val
-    = gmul a.val (gpow b.val 254) := rfl
+    = gmul a.val (ginvChain b.val) := rfl
 
 theorem inv_zero' : (0 : GF256)⁻¹ = 0 := by decide
 
